@@ -173,7 +173,7 @@ func runHarnesses(ld *Loaded, opts RunOpts) []HarnessResult {
 	for _, p := range ld.Pkgs {
 		var names []string
 		for n, m := range p.Members {
-			if f, ok := m.(*ssa.Function); ok && strings.HasPrefix(n, "VX_") {
+			if f, ok := m.(*ssa.Function); ok && strings.HasPrefix(n, "VX_") && !strings.HasPrefix(n, "VX_TV_") {
 				if (opts.Filter == nil || opts.Filter.MatchString(n)) && (opts.Filter2 == nil || opts.Filter2.MatchString(n)) {
 					names = append(names, f.Name())
 				}
